@@ -703,10 +703,15 @@ _RI_AX = [z3.ForAll([_RI_T], _RNG_ITER(_RI_T, 0) == _RI_T),
                     patterns=[_RNG_ITER(_RI_T, _RI_Q + 1)])]
 # Counter-model search only (verify._refine): ONE concrete interpretation of the generator-state functions under which
 # the recursive definition above holds.  Extra constraints can only lose counter-models, never create one.
-_HX, _HK = z3.Int("hint_x"), z3.Int("hint_k")
+_HX, _HK, _HS = z3.Int("hint_x"), z3.Int("hint_k"), z3.Int("hint_s")
+_HM = z3.Const("hint_m", lib.ObjS)
+_HCOLS = z3.Function("hint_model_cols", lib.ObjS, z3.IntSort())
 REFUTE_HINTS = [
     (("rng_next", "rng_iter"), z3.ForAll([_HX, _HK], lib._RNG_NEXT(_HX, _HK) == _HX + 1)),
     (("rng_iter",), z3.ForAll([_HX, _HK], _RNG_ITER(_HX, _HK) == _HX + z3.If(_HK > 0, _HK, 0))),
+    # a user model whose output has N rows and a column count that depends on the model only
+    (("model_out_rows",), z3.ForAll([_HM, _HX, _HK, _HS], _MROWS(_HM, _HX, _HK, _HS) == _HK)),
+    (("model_out_cols",), z3.ForAll([_HM, _HX, _HK, _HS], _MCOLS(_HM, _HX, _HK, _HS) == _HCOLS(_HM))),
 ]
 
 
